@@ -202,6 +202,73 @@ func VerifC20ObjectRoundTrip() {
 	verifrt.Reached("end")
 }
 
+// VerifC20Shared: value graphs with sharing - one array or map referenced
+// several times, arrays and byte strings that are re-slices of one backing
+// array (prefixes, suffixes, empty slices) at different depths - convert to Go
+// and back (and Go values with the same sharing convert to uGO and back) to a
+// deep-equal value: every reference keeps its own length and contents.
+func VerifC20Shared() {
+	i0, i1, i2 := Int(verifrt.Int64("i0")), Int(verifrt.Int64("i1")), Int(verifrt.Int64("i2"))
+	k := verifrt.Choice("k", 4) // prefix length 0..3
+	a := Array{i0, i1, i2}
+	m := Map{"x": i0, "y": String("s")}
+	b := Bytes{byte(verifrt.Byte("b0")), 2, 3}
+	var v Object
+	switch verifrt.Param("shape") {
+	case 0:
+		v = Array{a, a[:k]}
+	case 1:
+		v = Array{a[:k], a}
+	case 2:
+		v = Map{"full": a, "short": a[:k], "tail": a[1:]}
+	case 3:
+		v = Array{a, a, m, m, Map{"in": m, "arr": a}}
+	case 4:
+		v = Array{b, b[:k], b[1:], String("abc")[:k]}
+	case 5:
+		v = Array{Array{a[:1]}, Map{"k": a[:2], "e": a[:0]}, a, Array{a[k:]}}
+	}
+	var back Object
+	var err error
+	verifrt.NoPanic("conversion-no-panic", func() {
+		back, err = ToObject(ToInterface(v))
+	})
+	verifrt.Assert(err == nil, "shared-value-converts-back")
+	if err == nil {
+		verifrt.Assert(verifSameObject(v, back), "shared-object-roundtrip-identity")
+	}
+	// the same sharing on the Go side
+	ga := []any{int64(i0), int64(i1), int64(i2)}
+	gm := map[string]any{"x": int64(i0)}
+	var gv any
+	switch verifrt.Param("shape") {
+	case 0, 1:
+		gv = []any{ga, ga[:k]}
+	case 2:
+		gv = map[string]any{"full": ga, "short": ga[:k], "tail": ga[1:]}
+	case 3:
+		gv = []any{ga, ga, gm, gm, map[string]any{"in": gm, "arr": ga}}
+	case 4:
+		gb := []byte{1, 2, 3}
+		gv = []any{gb, gb[:k], gb[1:]}
+	default:
+		gv = []any{[]any{ga[:1]}, map[string]any{"k": ga[:2], "e": ga[:0]}, ga, []any{ga[k:]}}
+	}
+	var gback any
+	verifrt.NoPanic("go-conversion-no-panic", func() {
+		var o Object
+		o, err = ToObject(gv)
+		if err == nil {
+			gback = ToInterface(o)
+		}
+	})
+	verifrt.Assert(err == nil, "shared-go-value-converts")
+	if err == nil {
+		verifrt.Assert(verifSameGo(gv, gback), "shared-go-roundtrip-identity")
+	}
+	verifrt.Reached("end")
+}
+
 type verifUnsupportedStruct struct{ X int }
 
 // VerifC20Widths: every other supported Go integer/float width converts to
